@@ -26,6 +26,19 @@ enum Color { RED GREEN }
 input Filter { color: Color = RED, limit: Int }
 """
 
+BOUNDARY_SDL = """
+type Query {
+  f(a: Float = 2147483647.0, b: Float = 2147483648.0, c: Float = -2147483648.0, d: Float = -2147483649.0, e: Float = 2147483646.0,
+    m: Float = -2147483647.0, g: Int = 2147483647, h: Int = -2147483648, i: Float = 1e21, j: Float = 1.5e-7, n: Float = 3, p: Float = 0.1,
+    k: ID = 2147483648, q: [Float!] = [1, 2.5, 1e3]): Int
+}
+input In { x: Float = 2147483647.0, y: Int = 0, z: ID = 7 }
+"""
+# an ID numeral beyond 2^53: the printer's f (v + ".0") is NOT Python's repr(float(v)) -- outside CanonDoc, although build never reads f there
+BOUNDARY_SDL_BIG_ID = """
+type Query { f(l: ID = "9007199254740993", a: Float = 2.5): Int }
+"""
+
 SHAPES = [
     "short", "x" * 69, "x" * 70, "x" * 71, "word " * 13 + "w" * 4, "word " * 13 + "w" * 5,
     " ".join("word%d" % i for i in range(40)), "y" * 119, "y" * 130, "ab " * 60, "z" * 111 + " tail end", "z" * 112 + " tail end",
@@ -287,6 +300,24 @@ def run(ctx, histories, wire_schema):
     except Exception as e:  # noqa
         ctx.fail("internal:shape-corpus:%s" % type(e).__name__, "the description-shape corpus could not be built / printed",
                  {"part": PART, "error": repr(e)})
+    # NUMERAL BOUNDARIES (deterministic probe): Float defaults at the edges of the Int range (integral floats inside the OPEN
+    # range print as Int literals), Int extremes, exponent forms, big ID numerals -- exact text against both models, and the
+    # every-pre-image statement with Python's repr(float(v)) on each numeral
+    try:
+        from py_gql import build_schema
+        for bsrc, bsdl, indent in (("numeral-boundaries", BOUNDARY_SDL, 4), ("numeral-boundaries", BOUNDARY_SDL, "\t"),
+                                   ("numeral-boundaries:big-id", BOUNDARY_SDL_BIG_ID, 4)):
+            bsch = build_schema(bsdl)
+            ws = wire_schema(bsch)
+            o = dict(indent=indent, include_descriptions=True, include_introspection=False, include_custom_schema_directives=False)
+            ind = (" " * indent) if isinstance(indent, int) else indent
+            real = bsch.to_string(**o)
+            reqs.append({"op": "printT", "schema": ws["schema"], "indent": ind, "descriptions": True, "reprs": numeral_reprs(real), "wantPre": True})
+            meta.append((bsrc, o, real))
+            ctx.stat("textT-numeral-boundaries")
+    except Exception as e:  # noqa
+        ctx.fail("internal:numeral-boundaries:%s" % type(e).__name__, "the numeral-boundary probe could not be built / printed",
+                 {"part": PART, "error": repr(e)})
     if not reqs:
         return
     import time as _t
@@ -353,7 +384,11 @@ def run(ctx, histories, wire_schema):
                                  "(astToDoc) does not build what the printed document builds (text_roundtrip_every_preimage evaluated)",
                                  detail, kind="correspondence")
                 else:
-                    ctx.stat("textT-printer-f-differs-from-python-repr")
+                    # outside the theorem's hypothesis; recorded: the conclusion holds anyway when build does not read the differing f
+                    ctx.stat("textT-printer-f-differs-from-python-repr:preimage-%s" % ("holds" if a.get("preimage") else "fails"))
+                if src == "numeral-boundaries" and not a.get("canon"):
+                    ctx.fail("corr:printT:canon:numeral-boundaries", "the printer model's f components differ from Python's repr(float(v)) on "
+                             "the numeral-boundary probe", detail, kind="correspondence")
     ctx.extra["nodesc_evaluated"] = "%d of %d schemas printed with include_descriptions=False satisfy printTextWF once stripped" % (n_off_wf, n_off)
     ctx.extra["every_preimage_evaluated"] = ("%d of the printTextWF schemas it was evaluated on (of %d printTextWF schemas) have the printer's f = repr(float(v)) on every printed default "
                                              "(CanonDoc); astToDoc of the parsed tree builds the same schema in %d of them (%d with numerals)"
